@@ -78,6 +78,16 @@ def typed_view(g):
 def mutate_graph(impl, rng, g):
     from maltoolbox.attackgraph.analyzers import apriori
     if g.model is not None:
+        # sometimes steps (entry points among them) are removed before the attackers are attached
+        if rng.random() < 0.3 and g.nodes:
+            named = [g.get_node_by_full_name(str(a.name) + ':' + st) for t in g.model.attackers for a, sts in t.entry_points for st in sts]
+            cands = [n for n in named if n is not None] or list(g.nodes)
+            for n in rng.sample(cands, min(len(cands), rng.randint(1, 2))):
+                try:
+                    if any(n is x for x in g.nodes):
+                        g.remove_node(n)
+                except Exception:
+                    pass
         try:
             g.attach_attackers()
         except Exception:
@@ -91,6 +101,15 @@ def mutate_graph(impl, rng, g):
                            attacker_id=g.next_attacker_id + rng.randint(1, 3), entry_points=ids[:1], reached_attack_steps=ids)
         if len(g.attackers) >= 2 and rng.random() < 0.4:
             g.remove_attacker(g.attackers[0])
+    except Exception:
+        pass
+    # a step that every attacker has reached is removed
+    try:
+        if len(g.attackers) >= 2 and g.nodes and rng.random() < 0.3:
+            n = rng.choice(g.nodes)
+            for a in g.attackers:
+                a.compromise(n)
+            g.remove_node(n)
     except Exception:
         pass
     for _ in range(rng.randint(0, 6)):
